@@ -669,13 +669,19 @@ def _find_dependencies(component, output_owners, target_time):
     for _, inp in component.inputs.items():
         local_time = target_time
         delayed = False
+        buffered = False
         while isinstance(inp, IInput):
             inp = inp.source
-            if isinstance(inp, NoDependencyAdapter):
-                break
-            if isinstance(inp, ITimeDelayAdapter):
-                local_time = inp.with_delay(local_time)
-                delayed = True
+            if not buffered:
+                if isinstance(inp, NoDependencyAdapter):
+                    break
+                if isinstance(inp, ITimeDelayAdapter):
+                    local_time = inp.with_delay(local_time)
+                    delayed = True
+            # push-based adapters answer from their buffer, which is filled on notification:
+            # the source has to reach local_time, whatever delays follow further upstream
+            if isinstance(inp, IAdapter) and inp.needs_push:
+                buffered = True
 
         if not isinstance(inp, NoDependencyAdapter) and not inp.is_static:
             comp = output_owners[inp]
